@@ -115,5 +115,8 @@ func (tfg *TaskfileGraph) Merge() (*Taskfile, error) {
 		return nil, err
 	}
 
+	// Resolve the references to tasks in the root Taskfile
+	rootVertex.Taskfile.Tasks.resolveRootReferences()
+
 	return rootVertex.Taskfile, nil
 }
